@@ -24,6 +24,11 @@ NB  neighbourhood differentials, absolute tolerance max(1e-12, 8 eps scale): for
     adjustment); for coverages next to 0, 1 and every breakpoint value(x) - value(special x) = the reference
     piecewise-linear difference / RT (H, G).  Temperatures next to T_mid, NASA-9 segment bounds, T_low, T_high and
     the models' default T (298.15 K) are added to the M1 evaluations.
+DIM the dimensional getters get_Cp / get_H / get_S / get_G (one unit: J/mol/K, kJ/mol) evaluated under the same
+    conditions equal the dimensionless value x R (x T), for scalar T and list / tuple / ndarray T.
+Every call spells its condition keywords in a fresh random order (shared P= / x= before, between and after the
+'<name>_kwargs' blocks); a block addressed to species j overrides a shared x= for the models watching j, whatever
+the order; a shared x= alone reaches every coverage model.
 M3  S(P) = S(1 bar) - ln P, G(P) = G(1 bar) + ln P, default pressure = 1 bar for species that
     carry the adjustment; no pressure dependence otherwise.
 CNT probe monitor: during one evaluation of Cp/H/S at n temperatures every attached model's
@@ -39,7 +44,7 @@ from vf.gen import species as SG
 from vf.ref import poly
 
 ID = 'C13'
-N = {'quick': 9000, 'thorough': 300000}
+N = {'quick': 7500, 'thorough': 300000}
 NT_RULE = ('species class x phase spelling x 0-4 user supplied models in random order (GasPressureAdj present or '
            'not, PiecewiseCovEffect on 1-3 species j with coverages in <name_j>_kwargs, ConstantMode) x '
            'add_gas_P_adj x misc_models None/[]/list x copy/deepcopy x 0-3 from_dict / JSON cycles x list shared '
@@ -47,7 +52,7 @@ NT_RULE = ('species class x phase spelling x 0-4 user supplied models in random 
            'seeded PRNG after a list of directed cases; non-trivial = >=2 attached models, or an array of >=2 '
            'temperatures with a temperature/condition dependent model, or >=1 reload cycle; distinct = distinct '
            'canonical JSON of the case')
-REQUIRED_ORACLES = ['M1', 'M2', 'M3', 'CNT', 'NB']
+REQUIRED_ORACLES = ['M1', 'M2', 'M3', 'CNT', 'NB', 'DIM']
 # neighbourhoods of special condition values: relative distances (None = one ulp), both sides
 NEAR_DIST = [('1ulp', None), ('1e-12', 1e-12), ('1e-9', 1e-9), ('1e-6', 1e-6), ('4e-6', 4e-6), ('1e-5', 1e-5),
              ('1e-4', 1e-4)]
@@ -73,6 +78,10 @@ REQUIRED_CLASSES = (['class:Nasa', 'class:Nasa9', 'class:Shomate'] +
                     ['x_near:0', 'x_near:1', 'x_near:break-', 'x_near:break+', 'T_near:T_mid-', 'T_near:T_mid+',
                      'T_near:seg_bound-', 'T_near:seg_bound+', 'T_near:T_low', 'T_near:T_high', 'T_near:T0',
                      'near:reloaded'] +
+                    ['cond:shared_x', 'cond:shared_x+specific_block', 'cond:shared_x_only',
+                     'kw_order:shared_x_before_block', 'kw_order:shared_x_after_block', 'kw_order:P_first',
+                     'kw_order:P_last', 'kw_order:P_between', 'array:tuple'] +
+                    ['dim:%s:%s' % (n, k) for n in ('Cp', 'H', 'S', 'G') for k in ('scalar', 'list', 'tuple', 'ndarray')] +
                     ['T:array_repeats', 'T:array_all_equal', 'T:array_descending', 'T:array_unsorted',
                      'model:gas_raw_entry', 'raw_entry:alone', 'raw_entry:first', 'raw_entry:last',
                      'raw_entry:middle',
@@ -90,6 +99,12 @@ ASSUMPTIONS = [
     'ConstantMode is not combined with reload cycles (it is not in the JSON registry: C11) and G is not compared '
     'when a ConstantMode is attached (its own G attribute is independent of its H and S)',
     'return shapes are normalised (size-1 array vs scalar is shape, not value)',
+    'DIM uses one unit per quantity (unit algebra is C04) and the species own dimensionless getter as the reference '
+    '(the dimensionless value itself is decided by M1); a ONE-element list / tuple T in a dimensional getter is '
+    'telemetry only (extra.dim_len1_sequence_*): Shomate.get_H / get_G raise TypeError there (float * list), which is '
+    'the C04 / C02 shape defect, not a correction being dropped',
+    'a shared x= and a <name_j>_kwargs block in the same call: the block wins for the models watching j (what '
+    '_get_specie_kwargs documents: species specific parameters are merged over the shared ones)',
     'CNT counts the model getters of Cp, H, S (G is H - S and may legitimately be assembled either way); it presumes '
     'that models are evaluated one temperature at a time, as _get_mix_quantity does (a vectorised rewrite would '
     'need CNT restated as one call per model per evaluation)']
@@ -283,7 +298,7 @@ def _gen_arrays(rng, sp, n_models, lengths=None):
                 Ts[-1] = Ts[0]
         elif r < 0.72 and n >= 2:
             Ts = [Ts[rng.randrange(n)]] * n
-        out.append({'kind': rng.choice(['list', 'ndarray']), 'T': Ts})
+        out.append({'kind': rng.choice(['list', 'ndarray', 'ndarray', 'tuple']), 'T': Ts})
     return out
 
 
@@ -315,6 +330,10 @@ def _gen_conditions(rng, spec):
         else:
             x = _r(rng, 0.0, 1.0)
         cond['x'][m['name_j']] = x
+    cond['x_shared'] = None
+    if any(m['kind'] == 'cov' for m in spec['models'] or []) and rng.random() < 0.35:
+        cond['x_shared'] = _r(rng, 0.0, 1.0)        # shared coverage: used by every model without its own block
+    cond['order_seed'] = rng.randrange(10 ** 6)
     if rng.random() < 0.4:
         used = set(m.get('name_j') for m in spec['models'] or []) | {sp['name']}
         free = [n for n in NAMES + ['Z(S)', '(S)'] if n not in used]
@@ -414,6 +433,14 @@ def directed(tier):
         D.append(_case(rng, cls, 'Gas', [], misc_none=True, history=['json'], lengths=[2], full_near=True))
         D.append(_case(rng, cls, 'S', [covB], history=['deepcopy'], lengths=[2], full_near=True))
         D.append(_case(rng, cls, 'g', [covC], add='0', history=['from_dict'], lengths=[2], full_near=True))
+        # a shared x= together with a block for one of the watched species (the block wins, any keyword order),
+        # a shared x= alone (reaches every coverage model), and a block for every species beside the shared x=
+        for ph, xs_ in (('g', {'O(S)': 0.2}), ('S', {}), ('Gas', {'O(S)': 0.45, 'H(S)': 0.1}), ('s', {'H(S)': 1.0})):
+            c = _case(rng, cls, ph, [covB, covC], lengths=[2, 3], units='J/mol/K',
+                      history=['json'] if ph == 'S' else [])
+            c['cond'] = {'P': 3.5, 'x': dict(xs_), 'x_shared': 0.9, 'distractor': {'name': 'Z(S)', 'x': 0.3, 'P': 0.2},
+                         'order_seed': 7 + n_cls}
+            D.append(c)
         # repeated / all-equal / descending temperatures with 1, 2 and 4 attached models
         for ph, mods in (('S', [covB]), ('g', [covB, const]), ('Gas', [covC, gas, covB, covSelf]), ('s', [])):
             c = _case(rng, cls, ph, mods, lengths=[2], units='J/mol/K')
@@ -611,16 +638,51 @@ def _build_model(m):
 
 
 def _kwargs(cond, P='spec'):
-    kw = {}
+    """condition keywords of one call, spelled in a fresh (replayable) random order."""
+    items = []
     p = cond['P'] if P == 'spec' else P
     if p is not None:
-        kw['P'] = p
+        items.append(('P', p))
+    if cond.get('x_shared') is not None:
+        items.append(('x', cond['x_shared']))
     for j, x in cond['x'].items():
-        kw['%s_kwargs' % j] = {'x': x}
+        items.append(('%s_kwargs' % j, {'x': x}))
     d = cond.get('distractor')
     if d:
-        kw['%s_kwargs' % d['name']] = {'x': d['x'], 'P': d['P']}
-    return kw
+        items.append(('%s_kwargs' % d['name'], {'x': d['x'], 'P': d['P']}))
+    if 'order_seed' in cond:
+        _ST['kw_n'] = _ST.get('kw_n', 0) + 1
+        random.Random('%s:%d' % (cond['order_seed'], _ST['kw_n'])).shuffle(items)
+        ctx = _ST['ctx']
+        keys = [k for k, _ in items]
+        blocks = [i for i, k in enumerate(keys) if k.endswith('_kwargs') and k[:-7] in cond['x']]
+        if ctx is not None and len(keys) >= 2:
+            if 'x' in keys and blocks:
+                ix = keys.index('x')
+                if ix < min(blocks):
+                    ctx.cls('kw_order:shared_x_before_block')
+                if ix > max(blocks):
+                    ctx.cls('kw_order:shared_x_after_block')
+            if 'P' in keys:
+                ip = keys.index('P')
+                ctx.cls('kw_order:P_first' if ip == 0 else 'kw_order:P_last' if ip == len(keys) - 1
+                        else 'kw_order:P_between')
+    return dict(items)
+
+
+def eff_x(cond, models):
+    """coverage seen by each watched species j: its own block, else the shared x=, else the default 0."""
+    out = {}
+    for m in models:
+        if m['kind'] == 'cov':
+            j = m['name_j']
+            if j in cond['x']:
+                out[j] = cond['x'][j]
+            elif cond.get('x_shared') is not None:
+                out[j] = cond['x_shared']
+            else:
+                out[j] = 0.0
+    return out
 
 
 def _count_adj(obj):
@@ -632,6 +694,8 @@ def _count_adj(obj):
 
 
 def _as_T(arr):
+    if arr['kind'] == 'tuple':
+        return tuple(arr['T'])
     import numpy as np
     return np.array(arr['T'], dtype=float) if arr['kind'] == 'ndarray' else list(arr['T'])
 
@@ -658,7 +722,7 @@ class _Eval:
         from pmutt.mixture.cov import PiecewiseCovEffect
         from pmutt.statmech import ConstantMode
         ctx, cond = self.ctx, self.spec['cond']
-        kw = _kwargs(cond)
+        xs = eff_x(cond, self.models)
         inputs = [('scalar', T, [T]) for T in scalars] + [('array', _as_T(a), list(a['T'])) for a in arrays]
         for q in Q:
             for kind, T_in, T_list in inputs:
@@ -666,6 +730,7 @@ class _Eval:
                 if len(set(T_list)) < len(T_list):
                     mech['T_repeats'] = True
                 ctx.cls('T:' + kind)
+                kw = _kwargs(cond)                       # fresh keyword order for every call
                 _ST['counts'] = {}
                 r = ctx.call('M1', mech, getattr(obj, 'get_' + q), T=T_in, **kw)
                 counts, _ST['counts'] = _ST['counts'], {}
@@ -675,8 +740,8 @@ class _Eval:
                     ctx.nontrivial()
                 if not (q == 'GoRT' and self.has_const):
                     got = np.ravel(np.asarray(r, dtype=float))
-                    want = np.array([self.want(q, T, cond['P'], cond['x']) for T in T_list])
-                    ctx.close('M1', got, want, TOL, mech, T=T_list, kwargs=kw,
+                    want = np.array([self.want(q, T, cond['P'], xs) for T in T_list])
+                    ctx.close('M1', got, want, TOL, mech, T=T_list, kwargs=kw, kw_order=list(kw),
                               models=[m['kind'] for m in self.models])
                 if q != 'GoRT' and obj.misc_models is not None:
                     for m in obj.misc_models:
@@ -752,13 +817,12 @@ def _near(ev, obj, hist):
                   value_scale=scale, **detail)
 
     # ---- pressure next to 1 bar: the monitor's own -ln P
-    kw_1bar = _kwargs(cond, 1.0)
     for label, P in near['P']:
         ctx.cls('P_near:' + label)
         for kind, T_in, T_list in inputs:
             for q, sign in (('SoR', -1.0), ('GoRT', +1.0)):
                 want = [sign * math.log(P) if carries else 0.0] * len(T_list)
-                diff('P_near', q, kind, T_in, kw_1bar, _kwargs(cond, P), want, {'dist': label.lstrip('+-')},
+                diff('P_near', q, kind, T_in, _kwargs(cond, 1.0), _kwargs(cond, P), want, {'dist': label.lstrip('+-')},
                      P=P, side=label[0], carries_adj=carries)
     # ---- coverages next to 0, 1 and the breakpoints
     for j, pairs in near['x'].items():
@@ -784,6 +848,51 @@ def _near(ev, obj, hist):
             ctx.cls('T_near:' + what)
         Ts = [t[2] for t in near['T']]
         ev.m1(obj, dict(hist, T_near=True), Ts if len(Ts) > 3 else Ts[:1], [{'kind': 'ndarray', 'T': Ts}])
+
+
+DIM_Q = [('Cp', 'CpoR', 'J/mol/K', False), ('H', 'HoRT', 'kJ/mol', True), ('S', 'SoR', 'J/mol/K', False),
+         ('G', 'GoRT', 'kJ/mol', True)]
+
+
+def _dim(ev, obj, hist):
+    """DIM: value in real units = dimensionless value x R (x T) under the same conditions."""
+    import numpy as np
+    from pmutt import constants as c
+    ctx, spec = ev.ctx, ev.spec
+    cond = spec['cond']
+    k0 = (ctx.case_index or 0)
+    inputs = [('scalar', spec['Ts'][k0 % len(spec['Ts'])], None)]
+    for n, a in enumerate(spec['arrays'][:2]):
+        kind = ('list', 'tuple', 'ndarray')[(k0 + n) % 3]
+        inputs.append((kind, a['T'], a))
+    for name, dl, unit, times_T in DIM_Q:
+        R = c.R(unit + '/K' if times_T else unit)
+        for kind, T, arr in inputs:
+            if kind == 'scalar':
+                T_in, T_arr = T, np.array([T], dtype=float)
+            else:
+                T_arr = np.array(T, dtype=float)
+                T_in = list(T) if kind == 'list' else tuple(T) if kind == 'tuple' else T_arr
+            mech = dict(ev.base, q=name, T_kind='scalar' if kind == 'scalar' else 'array', T_type=kind,
+                        clause='DIM', **hist)
+            if len(T_arr) == 1 and kind in ('list', 'tuple'):
+                # one-element sequences: shape defect of the unit layer (C04/C02), telemetry only; the verdict
+                # is taken with the same temperature as an ndarray
+                try:
+                    getattr(obj, 'get_' + name)(T=T_in, units=unit, **_kwargs(cond))
+                    key = 'dim_len1_sequence_ok'
+                except Exception as e:                       # noqa
+                    key = 'dim_len1_sequence_%s_%s_%s' % (type(obj).__name__, name, type(e).__name__)
+                ctx.extra[key] = ctx.extra.get(key, 0) + 1
+                kind, T_in = 'ndarray', T_arr
+                mech['T_type'] = kind
+            ctx.cls('dim:%s:%s' % (name, kind))
+            v = ctx.call('DIM', mech, getattr(obj, 'get_' + name), T=T_in, units=unit, **_kwargs(cond))
+            d = ctx.call('DIM', dict(mech, step='dimensionless'), getattr(obj, 'get_' + dl), T=T_in, **_kwargs(cond))
+            if v is core.NOVALUE or d is core.NOVALUE:
+                continue
+            want = np.ravel(np.asarray(d, dtype=float)) * R * (T_arr if times_T else 1.0)
+            ctx.close('DIM', np.ravel(np.asarray(v, dtype=float)), want, 1e-12, mech, T=list(T_arr), units=unit)
 
 
 def _reload(ctx, obj, op, mech):
@@ -842,10 +951,24 @@ def run_case(spec, ctx):
     ctx.cls('P:default' if cond['P'] is None else 'P:given')
     if cond.get('distractor'):
         ctx.cls('cond:distractor_block')
+    _ST['kw_n'] = 0
+    if cond.get('x_shared') is not None:
+        watched = set(m['name_j'] for m in (user or []) if m['kind'] == 'cov')
+        ctx.cls('cond:shared_x')
+        if watched & set(cond['x']):
+            ctx.cls('cond:shared_x+specific_block')
+            base['shared_x'] = 'with_block'
+        else:
+            base['shared_x'] = 'only'
+        if watched - set(cond['x']):
+            ctx.cls('cond:shared_x_only')
     for m in (user or []):
         if m['kind'] == 'cov':
             x = cond['x'].get(m['name_j'])
-            if x is None:
+            if x is None and cond.get('x_shared') is not None:
+                x = cond['x_shared']
+                ctx.cls('x:shared')
+            elif x is None:
                 ctx.cls('x:default')
             elif x in m['intervals'][1:]:
                 ctx.cls('x:on_break')
@@ -942,6 +1065,7 @@ def run_case(spec, ctx):
     ev.m1(obj, hist, spec['Ts'], spec['arrays'])
     ev.m3(obj, hist, spec['Ts'], spec['arrays'])
     _near(ev, obj, hist)
+    _dim(ev, obj, hist)
     # ---- history
     disabled = not FLAG_TRUTHY[flag] and is_gas(phase)
     vias = []
@@ -970,3 +1094,4 @@ def run_case(spec, ctx):
             ev.m3(obj, hist, spec['Ts'], spec['arrays'])
         if last:
             _near(ev, obj, hist)
+            _dim(ev, obj, hist)
